@@ -13,5 +13,5 @@ import NbioVerif.Properties.C10
 #print axioms SharedHeap.c10_noninterference_stale_counterexample
 #print axioms ClientFifo.c10_client_exactly_once
 #print axioms ClientFifo.c10_client_closed
-#print axioms ClientFifo.c10_client_match_partial
-#print axioms ClientFifo.c10_client_match_counterexample
+#print axioms ClientFifo.c10_client_match
+#print axioms ClientFifo.c10_client_stale_ignored
